@@ -28,13 +28,16 @@ struct Scenario {
     base_items: u32,
     indexes: u16,
     versions: usize,
+    /// the forest collapses into a single bucket in version 2 and grows again afterwards
+    collapse: bool,
 }
 
 fn scenario(name: &str) -> Scenario {
     match name {
-        "small" => Scenario { dim: 2, base_items: 6, indexes: 1, versions: 3 },
-        "large" => Scenario { dim: 8, base_items: 300, indexes: 2, versions: 4 },
-        _ => Scenario { dim: 24, base_items: 1500, indexes: 3, versions: 4 },
+        "small" => Scenario { dim: 2, base_items: 6, indexes: 1, versions: 3, collapse: false },
+        "collapse" => Scenario { dim: 4, base_items: 14, indexes: 2, versions: 4, collapse: true },
+        "large" => Scenario { dim: 8, base_items: 300, indexes: 2, versions: 4, collapse: false },
+        _ => Scenario { dim: 24, base_items: 1500, indexes: 3, versions: 4, collapse: false },
     }
 }
 
@@ -50,6 +53,15 @@ fn vec_for(sc: &Scenario, index: u16, id: u32, salt: u32) -> Vec<u32> {
 /// The item operations of version `v` (1-based) on `index`: (id, Some(vector) = add, None = delete).
 fn ops_of(sc: &Scenario, index: u16, v: usize) -> Vec<(u32, Option<Vec<u32>>)> {
     let n = sc.base_items;
+    if sc.collapse {
+        // v1: a forest; v2: everything but three items deleted (single bucket); v3: grown again; v4: emptied
+        return match v {
+            1 => (0..n).map(|id| (id, Some(vec_for(sc, index, id, 1)))).collect(),
+            2 => (3..n).map(|id| (id, None)).collect(),
+            3 => (100..100 + n).map(|id| (id, Some(vec_for(sc, index, id, 3)))).collect(),
+            _ => (0..3).chain(100..100 + n).map(|id| (id, None)).collect(),
+        };
+    }
     match v {
         1 => (0..n).map(|id| (id, Some(vec_for(sc, index, id, 1)))).collect(),
         2 => {
@@ -148,7 +160,7 @@ pub fn child(dir: &str, scenario_name: &str, kill_at_event: i64) -> i32 {
                 y("build");
                 let mut rng = StdRng::seed_from_u64(v as u64 * 10 + index as u64);
                 let mut b = writer.builder(&mut rng);
-                b.n_trees(trees_of(v)).split_after(if sc.dim == 2 { 2 } else { 16 });
+                b.n_trees(trees_of(v)).split_after(if sc.dim == 2 { 2 } else if sc.collapse { 4 } else { 16 });
                 b.cancel(|| {
                     y("cancel-poll");
                     false
@@ -281,7 +293,7 @@ pub fn run(tier: Tier) -> i32 {
     let mut report = Report::new("C09", tier, "fault_enumeration");
     report.assume("process kill, not power loss: the page cache survives; torn sectors and lost unsynced blocks exercise LMDB, which the property trusts");
     report.assume("kill points are the script's events (API boundaries, cancel polls, progress calls) and the boundaries of the write-family system calls on data.mdb");
-    let names: &[&str] = if tier == Tier::Quick { &["small", "large"] } else { &["small", "large", "xl"] };
+    let names: &[&str] = if tier == Tier::Quick { &["small", "collapse", "large"] } else { &["small", "collapse", "large", "xl"] };
     for n in names {
         run_scenario(&mut report, n);
         if !report.violations.is_empty() || !report.machinery_errors.is_empty() {
